@@ -467,7 +467,7 @@ class Runner:
 
     def finding_witness(self, ob, enc, label, key, formula, base, in_names, view_keys, values):
         self.res["queries"] += 1
-        st, model, info = self.decide(base + [f"(assert {formula})"], values, "sat")
+        st, model, info = self.decide(base + [f"(assert {formula})"], () if key in self.findings_seen else values, "sat")
         rec = dict(engine="mir2smt", obligation=ob.name, kind="finding-witness", label=label, key=key, status=st, **info)
         if st == "unsat":
             self.res["discharged"] += 1          # the clause holds in the region too: the finding is gone
